@@ -28,6 +28,9 @@ PROP = dict(
                        "Comdex.C08.beginBlock_keeps_pending",
                        "Comdex.C08.books_across_migration", "Comdex.C08.reserve_ledger_across_migration", "Comdex.C08.migration_switches_off",
                        "Comdex.C08.migration_leak_counterexample"],
+    # laws of the extended model that are not clauses of C08 (reserve book-keeping records, flags rewritten by the store
+    # migration): reported in the evidence, never a verdict; observations D36 / D37 in notes/C08.md and DESIGN.md §7
+    informational_monitors=["reserve_ledger", "reserve_ledger_poolsweep", "reserve_halves", "migration_leak"],
     harness_tests=["TestC08"],
     monitors=["total_lend", "total_lend_orphaned", "total_borrowed", "total_stable", "ltv", "ltv_exact", "pool_funds", "pledged_safe",
               "ids_consistent", "reserve_ledger", "reserve_ledger_poolsweep", "reserve_halves", "migration_leak"],
